@@ -307,17 +307,18 @@ func checkCase(c Case) evid.Outcome {
 		// with the received values; the request used the optional segment iff
 		// the long form explains the number of segments
 		brace := false
-		for _, v := range params {
-			if strings.ContainsAny(v, "{}") {
+		for k, v := range params {
+			if k != "route" && strings.ContainsAny(v, "{}") {
 				brace = true
 			}
 		}
 		if brace {
+			out.Classes = append(out.Classes, "inverse-skipped-brace-value")
 			continue
 		}
 		wantShort := strings.TrimLeft(expected(d, params, false), "/")
 		wantLong := strings.TrimLeft(expected(d, params, true), "/")
-		decoded := decodedPath(d, q.P, params)
+		decoded := decodedPath(d, q.P)
 		okShort := strings.TrimLeft(gotURL[0], "/") == wantShort
 		okLong := strings.TrimLeft(gotURL[1], "/") == wantLong
 		if !okShort || !okLong {
@@ -337,63 +338,36 @@ func checkCase(c Case) evid.Outcome {
 	return out
 }
 
-// decodedPath decodes the request path piecewise when that is unambiguous:
-// every path segment that lies under a placeholder or match-all is decoded as
-// a whole value; for regex segments the decoding of the whole segment is used
-// when the segment has no escape (otherwise "" = skip).
-func decodedPath(d model.Route, p string, params map[string]string) string {
-	segs := model.SplitPath(p)
-	for _, s := range segs {
-		if strings.Contains(s, "%") {
-			// only whole-value decoding is unambiguous; find out below
-			goto careful
-		}
-	}
-	return "/" + strings.Join(segs, "/")
-careful:
-	// with escapes: every value must decode as a whole (left raw if malformed),
-	// so rebuild from the values: a match-all or placeholder value stands for
-	// its raw segments. This is only done for routes without regex segments.
+// decodedPath is the request path "up to the single percent-decoding of
+// values", computed without looking at what the implementation delivered: the
+// reference matcher aligns the path with the route on its own, every captured
+// piece is decoded once (left raw if malformed) and put back into the route.
+// "" = not decided here: a path with escapes under a route with regex segments
+// (an escape could straddle two binds of one segment), or a path the reference
+// does not align with this route.
+func decodedPath(d model.Route, p string) string {
+	hasRegex := false
 	for _, s := range d.Segs {
 		if k, _, _ := s.Classify(); k == model.KRegex {
-			return ""
+			hasRegex = true
 		}
 	}
-	var out []string
-	i := 0
-	for si, s := range d.Segs {
-		if i >= len(segs) {
-			break
-		}
-		k, binds, _ := s.Classify()
-		switch k {
-		case model.KStatic:
-			out = append(out, segs[i])
-			i++
-		case model.KPlaceholder:
-			out = append(out, model.Decode1(segs[i]))
-			i++
-		case model.KMatchAll:
-			// consume as many segments as the value has
-			v := params[binds[0]]
-			n := strings.Count(v, "/") + 1
-			// the value is decoded: count on the raw side instead
-			rest := len(d.Segs) - si - 1
-			if d.Segs[len(d.Segs)-1].Optional && len(segs)-i-n < rest {
-				rest--
-			}
-			n = len(segs) - i - rest
-			if n < 1 {
-				return ""
-			}
-			out = append(out, model.Decode1(strings.Join(segs[i:i+n], "/")))
-			i += n
-		}
-	}
-	if i != len(segs) {
+	if hasRegex && strings.Contains(p, "%") {
 		return ""
 	}
-	return "/" + strings.Join(out, "/")
+	mr, err := model.Compile(d, 0)
+	if err != nil {
+		return ""
+	}
+	res := model.Match([]model.MRoute{mr}, p, nil, nil)
+	if !res.Found {
+		return ""
+	}
+	vals := map[string]string{}
+	for k, v := range res.Raw {
+		vals[k] = model.Decode1(v)
+	}
+	return expected(d, vals, res.Form == model.Long)
 }
 
 // ---- generator ---------------------------------------------------------------
@@ -404,7 +378,7 @@ func genCase(t *rapid.T) Case {
 	var c Case
 	n := rapid.IntRange(1, 4).Draw(t, "nroutes")
 	g := model.NewRegistrar()
-	pool := gen.SegPoolW(t, 5, false, [3]int{20, 40, 85})
+	pool := gen.SegPoolW(t, 5, rapid.IntRange(0, 2).Draw(t, "wildspacing") == 0, [3]int{20, 40, 85})
 	special := []string{
 		"/s/{x: /[0-9]+/, capture: /[a-z]+/}", "/s2/{capture}", "/s3/{p: **, capture: 2}/{capture: /[0-9]+/}",
 		"/s4/{year: /[0-9]{4}/}-{month: /[0-9]{2}/}-{day: /[0-9]{2}/}.html", "/s5/{name}/?events",
@@ -509,6 +483,8 @@ func TestPinned(t *testing.T) {
 		{Routes: []Named{{Name: "p", Via: "get", R: "/webapi/{paths: **, capture: 2}/files"}},
 			Builds: []Build{{Name: "p", Pairs: [][2]string{{"paths", "src/lib"}, {"capture", "9"}}, WithOptional: "-"}},
 			Reqs:   []rt.Req{{M: "GET", P: "/webapi/src/lib/files"}}},
+		{Routes: []Named{{Name: "f", Via: "get", R: "/files/{name}"}},
+			Reqs: []rt.Req{{M: "GET", P: "/files/a%20b+c"}, {M: "GET", P: "/files/c++"}, {M: "GET", P: "/files/%2B+"}}},
 		{Routes: []Named{{Name: "ab", Via: "get", R: "/{a}-{b}"}},
 			Builds: []Build{{Name: "ab", Pairs: [][2]string{{"a", "{b}"}, {"b", "{a}"}}, WithOptional: "-"}}},
 	}
